@@ -33,3 +33,10 @@ Proof.
   exact (restart_any_byte ser deser crc deser_ser crc_bound ser_small).
 Qed.
 End I.
+
+(* the tail repair done by open must follow EVERY record length the writer can produce (the writer
+   and replay have no bound below u32::MAX): the model's [repair] / [scan_end] has no bound, and the
+   theorems are about that model.  A length cap in complete_prefix_len would cut a valid large record
+   -- and everything after it -- off the log on the next open. *)
+Lemma scan_follows_every_length : gen_raft_scan_cap = None.
+Proof. reflexivity. Qed.
